@@ -332,7 +332,7 @@ def e2e_sanity(ctx):
     # configuration that changes what porcelain commands print (status.showUntrackedFiles=no …), not what the repository holds
     cases += [dict(id=5000 + m, mask=m, bare=False, quietstatus=True) for m in range(0, 512, step_bare)]
     # a stash whose reflog was expired (refs/stash still holds the work; `git stash list` is empty), with and without a gc
-    cases += [dict(id=6000 + m, mask=m, bare=False, stash_expired=1 + (m // step_bare) % 2) for m in range(0, 512, step_bare) if m >> e2e.VIOLATIONS.index('stash') & 1]
+    cases += [dict(id=6000 + m, mask=m, bare=False, stash_expired=1 + m % 2) for m in range(512) if m >> e2e.VIOLATIONS.index('stash') & 1]      # all 256 subsets that contain the stash
     # --sensitive on a clone with an origin: a refusal must come before the mirror fetch touches any ref
     cases += [dict(id=7000 + m, mask=m, bare=False, sensitive=True) for m in range(0, 512, step_bare)]
     results = e2e.run_pool(e2e.sanity_case, cases)
@@ -499,7 +499,7 @@ def e2e_fault(ctx):
             if p == ctx.pid:
                 mine.append((c, msg))
     ctx.parts.append(dict(name='e2e(fault injection)', evaluations=len(cases), distinct_nontrivial=dist.get('faulted-runs', 0),
-                          rule='seeded: repositories of 40/150/400 commits on three branches with blobs of 30/600/3000 bytes, a second branch name on an exported commit (exported as reset/from), a lightweight and an annotated tag; every second case after an earlier successful run (its commit-map and ref-map are lying around, which enables the per-commit get-mark round trip); the real CLI with one of six option sets under a git shim that (a) ends the importer\'s input after K bytes, (b) injects a bogus command into the importer\'s input after K bytes and keeps sending, (c) ends the exporter\'s output after K bytes with exit status 1, 0 or 141; K uniform over the stream plus the boundaries 0, 1, 13, 64 KiB ± 1, end − 6; all other children paced by the shim. The run must exit non-zero and for-each-ref and HEAD must be as before. Non-trivial: the fault was delivered.',
+                          rule='seeded: repositories of 40/150/400 commits on three branches with blobs of 30/600/3000 bytes, a second branch name on an exported commit (exported as reset/from), a lightweight and an annotated tag; every second case after an earlier successful run (its commit-map and ref-map are lying around, which enables the per-commit get-mark round trip); the real CLI with one of six option sets under a git shim that (a) ends the importer\'s input after K bytes, (b) injects a bogus command into the importer\'s input after K bytes and keeps sending, (c) ends the exporter\'s output after K bytes with exit status 1, 0 or 141, (d) lets the importer read everything and then kills it with SIGKILL/SIGTERM/SIGXFSZ/SIGSEGV (no exit code at all); and, without the shim, (e) one auxiliary file (--replace-message, --replace-text, --strip-blobs-with-ids, --mailmap, --author-rewrite, --committer-rewrite, --email-rewrite) that is missing, a directory, not UTF-8 where it is read as text, holds a pattern that does not compile or an id that is no object id, given at a random position next to zero to four other, valid auxiliary files (a valid --mailmap among them in half of the cases) — with the control that the same command line with a valid file in its place succeeds; K uniform over the stream plus the boundaries 0, 1, 13, 64 KiB ± 1, end − 6; all other children paced by the shim. The run must exit non-zero and for-each-ref and HEAD must be as before. Non-trivial: the fault was delivered.',
                           samples=[dict(id=0, modes=['cutimport', 'poisonimport', 'cutexport'])],
                           distribution=dist, wall_s=round(time.time() - t0, 1), exhaustive=False, impl_property_failures_for_this_property=len(mine)))
     for c, msg in mine[:3]:
